@@ -62,7 +62,7 @@ def gen_masses(r, m0, fdis, soluble, upd):
         if pat == 'zero':
             return np.zeros(1), pat
         return np.array([-m0[0] * 10 ** r.uniform(-15, -9)]), pat
-    pat = r.choice(['full', 'partial', 'partial', 'log', 'log', 'threshold', 'threshold', 'some-negative',
+    pat = r.choice(['full', 'partial', 'partial', 'log', 'log', 'threshold', 'threshold', 'exact-threshold', 'some-negative',
                     'all-below', 'all-below', 'zero', 'all-negative'])
     m = m0.copy()
     if pat == 'partial':
@@ -73,6 +73,18 @@ def gen_masses(r, m0, fdis, soluble, upd):
         m = m0 * np.array([r.choice([1., r.uniform(0., 1.), fdis, fdis * (1 + 1e-12), fdis * (1 - 1e-12),
                                      fdis * (1 + 1e-6), fdis * (1 - 1e-6), math.nextafter(fdis, 1.),
                                      math.nextafter(fdis, 0.)]) for _ in range(nc)])
+    elif pat == 'exact-threshold':
+        # m_i / m0_i == fdis exactly in floating point on the released components (searched within a few ulps):
+        # the cut-off is `<`, so these components are KEPT
+        m = m0 * np.array([r.uniform(0., 1.) for _ in range(nc)])
+        for i in range(nc):
+            if rel[i] and r.random() < 0.7:
+                x = m0[i] * fdis
+                for _ in range(4):
+                    if x / m0[i] == fdis:
+                        break
+                    x = math.nextafter(x, math.inf if x / m0[i] < fdis else 0.)
+                m[i] = x
     elif pat == 'some-negative':
         m = m0 * np.array([r.choice([r.uniform(0., 1.), -10 ** r.uniform(-15, -8), 0.]) for _ in range(nc)])
         if not (m > 0).any():
@@ -247,11 +259,11 @@ def history_line(h):
 def compare_history(ctx, h, resp, worst):
     """returns list of disagreement strings"""
     bad = []
-    if not isinstance(resp, list) or len(resp) != 14 * len(h['calls']):
+    if not isinstance(resp, list) or len(resp) != 17 * len(h['calls']):
         return ['driver answered %r' % (resp[:2] if isinstance(resp, (list, tuple)) else resp,)]
     tol = TOL['gen_vs_source']
     for j, c in enumerate(h['calls']):
-        (KT, asksLib, asksSw, qm, qT, clean, us, rhoP, A, Cs, beta, betaT, T, kbio) = resp[14 * j:14 * j + 14]
+        (KT, asksLib, asksSw, qm, qT, clean, us, rhoP, A, Cs, beta, betaT, T, kbio, swT, swS, swP) = resp[17 * j:17 * j + 17]
         o = c['out']
 
         def cmp(name, a, b):
@@ -272,6 +284,8 @@ def compare_history(ctx, h, resp, worst):
             bad.append('history %d call %d library asked: model=%r code=%r' % (h['idx'], j, asksLib, c['nlib']))
         if bool(asksSw) != (c['sw'] is not None):
             bad.append('history %d call %d seawater.density asked: model=%r code=%r' % (h['idx'], j, asksSw, c['nsw']))
+        if c['sw'] is not None and tuple(c['sw'][0]) != (swT, swS, swP):
+            bad.append('history %d call %d seawater.density question: model=%r code=%r' % (h['idx'], j, (swT, swS, swP), c['sw'][0]))
         if c['lib'] is not None:
             (am, aT, _aP, _aS, _aTa, ast) = c['lib'][0]
             cmp('question.m', qm, [float(v) for v in np.atleast_1d(am)])
